@@ -177,10 +177,10 @@ func runC17(c *Ctx) {
 	}
 
 	// ---- C17.token
-	if !R.Anchor(len(ncr.AnonFuncs) >= 1, "C17.token", "json.NewCommentReader$1") {
+	split := P.Func("json", "NewCommentReader$1") // by role: the function handed to (*bufio.Scanner).Split
+	if !R.Anchor(split != nil, "C17.token", "json.NewCommentReader$1") {
 		return
 	}
-	split := ncr.AnonFuncs[0]
 	checkSplit(c, split)
 
 	// ---- C17.read: end of input is reported only when the scanner is exhausted; after a successful Scan,
@@ -204,11 +204,30 @@ func runC17(c *Ctx) {
 			return (a.Op == ">" && a.R == "0") || (a.Op == "!=" && a.R == "0") || (a.Op == ">=" && a.R == "1")
 		}
 		n := 0
+		// Scan sites: in Read itself, or in a module helper Read calls (the scan loop extracted into a function); for
+		// the latter the walk continues after the call in Read when the helper returns.
+		type scanSite struct {
+			call *ssa.Call
+			ret  *ssa.Call // call in Read through which the helper was entered (nil: the Scan is in Read)
+		}
+		var sites []scanSite
 		core.EachInstr(rd, func(in ssa.Instruction) {
-			if !isScan(in) {
+			if isScan(in) {
+				sites = append(sites, scanSite{in.(*ssa.Call), nil})
 				return
 			}
-			call := in.(*ssa.Call)
+			if call, ok := in.(*ssa.Call); ok {
+				if f := call.Call.StaticCallee(); f != nil && core.InModule(f) && len(f.Blocks) > 0 && f != rd {
+					core.EachInstr(f, func(x ssa.Instruction) {
+						if isScan(x) {
+							sites = append(sites, scanSite{x.(*ssa.Call), call})
+						}
+					})
+				}
+			}
+		})
+		for _, site := range sites {
+			call := site.call
 			for _, r := range *call.Referrers() {
 				iff, ok := r.(*ssa.If)
 				if !ok {
@@ -216,20 +235,31 @@ func runC17(c *Ctx) {
 				}
 				n++
 				bad := ""
-				seen := map[*ssa.BasicBlock]bool{}
-				var walk func(b *ssa.BasicBlock)
-				walk = func(b *ssa.BasicBlock) {
-					if seen[b] || bad != "" {
+				type pos struct {
+					b    *ssa.BasicBlock
+					from int
+					inRd bool
+				}
+				seen := map[pos]bool{}
+				var walk func(b *ssa.BasicBlock, from int, ret *ssa.Call)
+				walk = func(b *ssa.BasicBlock, from int, ret *ssa.Call) {
+					k := pos{b, from, ret == nil}
+					if seen[k] || bad != "" {
 						return
 					}
-					seen[b] = true
-					for _, x := range b.Instrs {
+					seen[k] = true
+					for _, x := range b.Instrs[from:] {
 						if isScan(x) {
 							return
 						}
-						if ret, ok := x.(*ssa.Return); ok {
-							if len(ret.Results) == 2 && core.Path(ret.Results[1]) == "io.EOF" {
-								bad = P.InstrPos(ret)
+						if r, ok := x.(*ssa.Return); ok {
+							if ret != nil {
+								// back in Read, right after the call of the helper
+								walk(ret.Block(), core.InstrIndex(ret)+1, nil)
+								return
+							}
+							if len(r.Results) == 2 && core.Path(r.Results[1]) == "io.EOF" {
+								bad = P.InstrPos(r)
 							}
 							return
 						}
@@ -237,21 +267,21 @@ func runC17(c *Ctx) {
 					if i2, ok := b.Instrs[len(b.Instrs)-1].(*ssa.If); ok {
 						for k, s2 := range b.Succs {
 							if !evidence(i2, k) {
-								walk(s2)
+								walk(s2, 0, ret)
 							}
 						}
 						return
 					}
 					for _, s2 := range b.Succs {
-						walk(s2)
+						walk(s2, 0, ret)
 					}
 				}
-				walk(iff.Block().Succs[0])
+				walk(iff.Block().Succs[0], 0, site.ret)
 				R.Check(bad == "", "C17.read", fmt.Sprintf("json|(*commentReader).Read|eof-only-when-exhausted#%d", n), P.InstrPos(call),
 					"after a successful Scan, io.EOF is only returned on paths with evidence that data was buffered; an empty token leads to another Scan",
 					"after a successful Scan that yielded an empty token (a comment with no data in front of it) Read can return io.EOF (at "+bad+") without scanning further: the rest of the document is cut off", nil)
 			}
-		})
+		}
 		if n == 0 {
 			R.Unknown("C17.read", "json|(*commentReader).Read|eof-only-when-exhausted", P.Pos(rd.Pos()), "Read no longer branches on bufio.Scanner.Scan", nil)
 		}
@@ -447,7 +477,7 @@ func checkSplit(c *Ctx, split *ssa.Function) {
 	var pos ssa.Value
 	core.EachInstr(split, func(in ssa.Instruction) {
 		if ex, ok := in.(*ssa.Extract); ok && ex.Index == 0 {
-			if call, ok := ex.Tuple.(*ssa.Call); ok && call.Call.StaticCallee() != nil && call.Call.StaticCallee().Name() == "firstMatch" {
+			if call, ok := ex.Tuple.(*ssa.Call); ok && call.Call.StaticCallee() != nil && core.FnName(call.Call.StaticCallee()) == "firstMatch" {
 				pos = ex
 			}
 		}
